@@ -1,9 +1,57 @@
-import AasVerif.Model.Lit.Enc
-import AasVerif.Model.Lit.Dec
+import AasVerif.Lemmas.Lit.Cs
+/-!
+# C19 — Emitted literals denote exactly the original values
+
+For each target: the literal produced by the model of `<target>/common.py:string_literal` (tied to
+the source by Gen tables + correspondence) is read back by the language's literal reader
+(`Lit.dec_*`, written from the language specification and validated against the real tool-chain
+where one exists) as exactly the original value; where the language cannot represent the value the
+encoder returns an error.  `needs_escaping s ↔ literal ≠ quote ++ s ++ quote`.
+
+Values: Python and C++ wide literals denote code points; C#, Java, TypeScript denote UTF-16 code
+units (`flatMap utf16cp`); Go and C++ narrow literals denote bytes (`flatMap utf8cp`).
+A `Text` is a Python `str` iff all its elements are `< 0x110000` (hypothesis `hs`).
+-/
 namespace AasVerif.Props.C19
 open AasVerif AasVerif.Lit
 
-theorem placeholder_utf16_ascii (c : Nat) (h : c < 128) : utf16cp c = [c] := by
-  unfold utf16cp; split <;> first | rfl | omega
+/-! ## C# -/
+
+/-- Every string: the C# literal is emitted (no error) and denotes the UTF-16 form of the string. -/
+theorem cs_roundtrip (s : Text) (hs : ∀ c ∈ s, c < 0x110000) :
+    ∃ lit, enc_cs s = .ok lit ∧ dec_cs lit = some (s.flatMap utf16cp) := by
+  refine ⟨[34] ++ s.flatMap escCs ++ [34], ?_, ?_⟩
+  · unfold enc_cs stripped
+    rw [isStripped_quoted 34 _ (by decide)]; rfl
+  · have hst : storable ([34] ++ s.flatMap escCs ++ [34]) = true :=
+      storable_wrap _ _ _ (okSrc_list_small _ (by decide))
+        (okSrc_flatMap escCs _ cs_okSrc s hs) (okSrc_list_small _ (by decide))
+    unfold dec_cs
+    rw [if_pos hst]
+    have hr := run_of_runs (runs_flatMap stepCs escCs utf16cp [34] (· < 0x110000)
+      (fun c tail v hc h => cs_char c tail v hc h) (Runs.done (by simp [stepCs])) s hs)
+    simpa using hr
+
+/-- `needs_escaping(s)` is exactly "the literal is not just the quoted text". -/
+theorem cs_needs_escaping_iff (s : Text) :
+    needs_cs s = true ↔ enc_cs s ≠ .ok ([34] ++ s ++ [34]) := by
+  have henc : enc_cs s = .ok ([34] ++ s.flatMap escCs ++ [34]) := by
+    unfold enc_cs stripped
+    rw [isStripped_quoted 34 _ (by decide)]; rfl
+  rw [henc]
+  have := flatMap_eq_self_iff escCs needsCharCs cs_needs_false cs_needs_true s
+  unfold needs_cs
+  constructor
+  · intro hn heq
+    simp only [Res.ok.injEq, List.cons_append, List.nil_append, List.cons.injEq, true_and,
+      List.append_cancel_right_eq] at heq
+    rw [this.1 heq] at hn; exact absurd hn (by decide)
+  · intro hne
+    cases hb : s.any needsCharCs with
+    | true => rfl
+    | false => exact absurd (by rw [this.2 hb]) hne
+
+example : enc_cs [0x2028, 0xD800, 97, 0x1F600] = .ok (Text.ofString "\"\\u2028\\ud800a" ++ [0x1F600, 34]) := by decide
+example : dec_cs (Text.ofString "\"\\u2028\\ud800a" ++ [0x1F600, 34]) = some [0x2028, 0xD800, 97, 0xD83D, 0xDE00] := by decide
 
 end AasVerif.Props.C19
